@@ -526,6 +526,28 @@ func GenModel(t *rapid.T, opts ModelOpts) (*t1ref.Font, map[string]bool) {
 			}
 		}
 	}
+	// one string object under two names: `/other /name load def` in the
+	// CharStrings dictionary (the glyph is a copy of an earlier plain glyph)
+	if rapid.IntRange(0, 7).Draw(t, "sharedcharstring") == 0 {
+		var plain []*t1ref.Glyph
+		for _, g := range f.Glyphs {
+			if g.Seac == nil && g.SameAs == "" && g.Name != t1ref.EmptyName {
+				plain = append(plain, g)
+			}
+		}
+		for k := rapid.IntRange(1, 2).Draw(t, "nshared"); k > 0 && len(plain) > 0; k-- {
+			src := plain[rapid.IntRange(0, len(plain)-1).Draw(t, "sharedsrc")]
+			name := []string{"twin", "Twin2", "zzshared"}[k] + strconv.Itoa(rapid.IntRange(0, 3).Draw(t, "sharedname"))
+			if seen[name] {
+				continue
+			}
+			seen[name] = true
+			c := *src
+			c.Name, c.SameAs = name, src.Name
+			f.Glyphs = append(f.Glyphs, &c)
+			feat["shared-charstring"] = true
+		}
+	}
 	// creation date
 	switch rapid.IntRange(0, 5).Draw(t, "date") {
 	case 0:
